@@ -45,6 +45,20 @@ func fixedCases() []caseT {
 		{F: &fmtCase{Code: 200, Format: hx1("%s %d"), Args: []argT{{K: "s", S: hx1("x")}}}},
 		{F: &fmtCase{Code: 200, Format: hx1("User: %s"), Args: []argT{{K: "s", S: hx1("bob")}}}},
 		{F: &fmtCase{Code: 201, Format: hx1("%s"), Args: []argT{{K: "s", S: hx1("")}}}},
+		// K19i: a fast-path write fails once, the fallback formatted the response again behind it
+		{R: &renCase{Steps: []renStep{
+			{Op: "Stringf", F: &fmtCase{Code: 200, Format: hx1("a%sb"), Args: []argT{{K: "s", S: hx1("x")}}}, FailAt: 2, Mode: 2},
+			{Op: "Stringf", F: &fmtCase{Code: 200, Format: hx1("a%sb"), Args: []argT{{K: "s", S: hx1("x")}}}, FailAt: 1, Mode: 1},
+		}}},
+		// a lost response (client gone), then further responses on other requests: each exactly its own bytes
+		{R: &renCase{Steps: []renStep{
+			{Op: "Stringf", F: &fmtCase{Code: 200, Format: hx1("session token of %s is 7f3a9c"), Args: []argT{{K: "s", S: hx1("alice")}}}, FailAt: 1},
+			{Op: "Stringf", F: &fmtCase{Code: 200, Format: hx1("hello %s"), Args: []argT{{K: "s", S: hx1("bob")}}}},
+			{Op: "String", Code: 200, Text: hx1("plain")},
+			{Op: "Stringf", F: &fmtCase{Code: 200, Format: hx1("%d items for %s"), Args: []argT{{K: "i", I: 3}, {K: "s", S: hx1("bob")}}}},
+			{Op: "JSON", J: &jsnCase{Variant: 4, Code: 200, V: jv{K: "s", S: hx1("é")}}, FailAt: 1, Mode: 1},
+			{Op: "Stringf", F: &fmtCase{Code: 201, Format: hx1("<%s>"), Args: []argT{{K: "s", S: hx1("")}}}},
+		}}},
 		// escaper: BMP, astral, invalid
 		{J: &jsnCase{Variant: 4, Code: 200, V: jv{K: "s", S: hx1("Hello, سلام 😀 \xff")}}},
 		{J: &jsnCase{Variant: 3, Code: 200, V: jv{K: "a", A: []jv{{K: "i", I: 1}}}}},
